@@ -159,7 +159,8 @@ class HOOAd(Adapter):
         return {"nu": 1.0, "rho": 0.5, "rounds": 1000}
 
     def gen_params(self, rnd, T):
-        return {"nu": rnd.choice([1.0, 0.5, 2.0, 0.1, 4.0]), "rho": rnd.choice([0.5, 0.25, 0.75, 0.9, 0.3]),
+        # (nu = 0.01, 0.001: the truncation depth is negative, the tree stays at the root's children)
+        return {"nu": rnd.choice([1.0, 0.5, 2.0, 0.1, 4.0, 0.01, 0.001]), "rho": rnd.choice([0.5, 0.25, 0.75, 0.9, 0.3]),
                 "rounds": rnd.choice([T, T, 1000, 10 * T, 100])}
 
     def construct(self, p, box, pcls):
@@ -636,7 +637,7 @@ class VROOMAd(Adapter):
         n = rnd.choice([T, T, 2 * T, 100, 64, 128, 20, 33])
         # the library's default cap is 100: with a smaller budget the constructor bounds the tree by n instead
         big = 1000 if n <= 33 else (100 if n < 100 else 10)
-        return {"n": n, "h_max": rnd.choice([3, 5, 8, 8, 12, 16, 25, big, big]), "b": rnd.choice([1.0, 0.5, 2.0]),
+        return {"n": n, "h_max": rnd.choice([0, 1, 3, 5, 8, 8, 12, 16, 25, big, big]), "b": rnd.choice([1.0, 0.5, 2.0]),
                 "f_max": rnd.choice([1.0, 2.0, 10.0])}
 
     def construct(self, p, box, pcls):
